@@ -14,7 +14,7 @@
 From Coq Require Import QArith Qround Permutation Sorted.
 From CKT Require Import Common.Base Extracted.Facts Model.Weights.
 From CKT Require Import Proofs.WeightsP Proofs.WeightsDfs Proofs.WeightsGen Proofs.WeightsTab.
-From CKT Require Import Proofs.WeightsSum Proofs.WeightsCount Proofs.WeightsUnb Proofs.WeightsMachine Proofs.WeightsRef Proofs.WeightsSort.
+From CKT Require Import Proofs.WeightsSum Proofs.WeightsCount Proofs.WeightsUnb Proofs.WeightsMachine Proofs.WeightsRef Proofs.WeightsSort Proofs.WeightsTotal Proofs.WeightsBridge.
 Open Scope Q_scope.
 
 (* valid probs: every vector is non-negative and sums to 1 (WeightsGen.valid) *)
@@ -91,6 +91,37 @@ Theorem c04_machine_refines_spec : forall probs thr,
   probs <> [] -> Forall (fun b => b <> []) probs ->
   exists ys, run_machine (fuel_bound probs) probs thr = Some ys /\ yields_eqb ys (dfs_spec probs thr) = true.
 Proof. exact machine_refines_spec. Qed.
+
+(* Totality.  On valid probability vectors, with ANY sorting permutations and ANY admissible tape, none of the three
+   remaining `assert`s (len(x) != 0, running_state not in retval, outcome not in retval) nor any other non-ValueError
+   exit is reachable: the model never answers Crashed.  No cut-off hypothesis is needed. *)
+Theorem c04_never_crashes : forall probs perms N tape res,
+  valid probs -> sorting_perms_b probs perms = true ->
+  gen_weights probs perms N tape = Some res -> res <> Crashed.
+Proof. exact never_crashes. Qed.
+
+(* ... and a request with N >= 1 on bases that each have a non-negligible entry is served (never refused) *)
+Theorem c04_always_served : forall probs perms q tape res,
+  valid probs -> Forall (fun v => exists x, In x v /\ nonzero_atol < x) probs ->
+  sorting_perms_b probs perms = true -> 1 <= q ->
+  gen_weights probs perms (Fin q) tape = Some res -> exists r, res = Ok r.
+Proof. exact always_served. Qed.
+
+(* Bridge between the tape sampler and the expectation functional, for ONE draw (num_desired = 1): the answers of the
+   oracle are the returned key (count 1), one call per level, and the product of the probabilities that were passed to
+   the oracle at the answered indices is ecount of that key.  So under O-choice E[count of ids] = P(answers = ids)
+   = ecount ids 1.  PARTIAL with respect to the general bridge (n draws, multinomial counts), which is OPEN:
+     c04_populate_expectation_open : sum over all admissible tapes of P(tape) * count_ids(populate .. n tape) = ecount .. n ids. *)
+Theorem c04_one_draw_bridge_partial : forall probs cond tape s t lg,
+  (forall st v, dget cond st = Some v -> (length st < length probs)%nat) -> probs <> [] ->
+  populate probs cond [] 1 tape = Some (s, t, lg) ->
+  exists ids, tape = ids ++ t /\ length ids = length probs /\ s = [(ids, 1%nat)] /\
+              length lg = length probs /\ Forall (fun e => fst e = 1%nat) lg /\
+              logprob lg ids == ecount probs cond [] 1 ids.
+Proof.
+  intros probs cond tape s t lg Hf Ne H.
+  destruct (populate_one_draw probs cond Hf probs [] [] tape s t lg eq_refl eq_refl Ne H) as [c Hc]. exists c. exact Hc.
+Qed.
 
 (* generate_qpd_weights = final_sort of _generate_qpd_weights: a rearrangement sorted by (type value, -weight)
    (sle a b: key a <= key b); keys are pairwise distinct, so every lookup -- hence every theorem above -- transfers
@@ -180,6 +211,9 @@ Print Assumptions c04_count_sum.
 Print Assumptions c04_unbiased.
 Print Assumptions c04_machine_refines_spec.
 Print Assumptions c04_final_sort.
+Print Assumptions c04_never_crashes.
+Print Assumptions c04_always_served.
+Print Assumptions c04_one_draw_bridge_partial.
 Print Assumptions c04_exact_complete.
 Print Assumptions c04_no_zero.
 Print Assumptions c04_infinite.
